@@ -2,7 +2,7 @@
 From Coq Require Import ZArith List Bool Lia.
 From PM Require Import Lib.Py Spec.LegalKey Model.Lits Spec.Proto Spec.Server Model.World Model.Readers Model.Serde Model.Client
                        Proofs.Hoare Proofs.ReaderFacts Proofs.DecimalFacts Proofs.C02Proof Proofs.C04Proof Proofs.C07Proof
-                       Proofs.Quiet Proofs.QuietFetch Proofs.E2E Proofs.E2EFetch.
+                       Proofs.Quiet Proofs.QuietFetch Proofs.QuietConnect Proofs.QuietAny Proofs.E2E Proofs.E2EFetch.
 Import ListNotations.
 Open Scope Z_scope.
 
@@ -26,34 +26,38 @@ Section E2EGat.
 Variable c : cfg.
 Hypothesis no_ignore : c_ignore_exc c = false.
 Hypothesis fetch_handler : h_fetch c = BaseException.
+Variable fr : option Z.               (* Some sid: connected on sid, nothing pending; None: any ready client (Proofs/QuietAny.v) *)
+Hypothesis Hcan : connectable c fr.
 Notation St := (St sstate).
+Notation Start := (Start sstate fr).
+Notation Done := (Done sstate fr).
 
-Theorem fetch_gat_e2e sid s (g : bool) keys pks expire z : wire_keys c (c_prefix c) keys = Ok pks -> keys <> [] -> swf s ->
+Theorem fetch_gat_e2e s (g : bool) keys pks expire z : wire_keys c (c_prefix c) keys = Ok pks -> keys <> [] -> swf s ->
   int_value expire = Some z -> - 2 ^ 63 <= z < 2 ^ 63 ->
   let items := map to_ritem (found_items s pks) in
   let s' := fst (exec s (CGat g z pks)) in
-  hoare (St sid s []) (fetch_cmd sstate serve c (if g then L_gats else L_gat) keys g (c_prefix c) (Some expire))
-        (fun res w => read_items c g (remap pks keys) items [] = Ok res /\ St sid s' [] w)
+  hoare (Start s) (fetch_cmd sstate serve c (if g then L_gats else L_gat) keys g (c_prefix c) (Some expire))
+        (fun res w => read_items c g (remap pks keys) items [] = Ok res /\ Done s' w)
         (fun e w => read_items c g (remap pks keys) items [] = Raise e /\ w_sock w = None).
 Proof.
   intros Hk Hne Hs Hz Hr. cbn zeta.
   destruct (map_keys_legal c (c_prefix c) keys pks Hk) as [Hl Hn].
   assert (Hpne : pks <> []) by (destruct pks; [destruct keys; [contradiction|discriminate]|discriminate]).
   intros w Hw. rewrite fetch_cmd_plan, (fetch_plan_gat c g keys pks expire z Hk Hpne Hz).
-  apply (fetch_io_quiet sstate serve c sid s _ (if g then L_gats else L_gat) g (remap pks keys) (render (CGat g z pks))
+  apply (fetch_io_any sstate serve c fr Hcan s _ (if g then L_gats else L_gat) g (remap pks keys) (render (CGat g z pks))
            (map to_ritem (found_items s pks)) (serve_gat s g z pks Hpne Hl Hr) (found_wf s pks Hs Hl) no_ignore fetch_handler w Hw).
 Qed.
 
 (* one key *)
-Theorem gat_e2e sid s key expire default k z : check_key c (c_prefix c) key = Ok k -> swf s ->
+Theorem gat_e2e s key expire default k z : check_key c (c_prefix c) key = Ok k -> swf s ->
   int_value expire = Some z -> - 2 ^ 63 <= z < 2 ^ 63 ->
   let s' := fst (exec s (CGat false z [k])) in
-  hoare (St sid s []) (run_op sstate serve c (OpGat key expire default))
-        (fun v w => match live s k with None => v = default | Some it => deser c it = Ok v end /\ St sid s' [] w)
+  hoare (Start s) (run_op sstate serve c (OpGat key expire default))
+        (fun v w => match live s k with None => v = default | Some it => deser c it = Ok v end /\ Done s' w)
         (fun e w => (exists it, live s k = Some it /\ deser c it = Raise e) /\ w_sock w = None).
 Proof.
   intros Hk Hs Hz Hr. cbn zeta. cbn [run_op]. intros w Hw.
-  pose proof (fetch_gat_e2e sid s false [key] [k] expire z (wire_one c key k Hk) ltac:(discriminate) Hs Hz Hr w Hw) as F. cbn zeta in F.
+  pose proof (fetch_gat_e2e s false [key] [k] expire z (wire_one c key k Hk) ltac:(discriminate) Hs Hz Hr w Hw) as F. cbn zeta in F.
   rewrite (read_one c false s key k Hk) in F. unfold mbind.
   destruct (fetch_cmd sstate serve c L_gat [key] false (c_prefix c) (Some expire) w) as [[r|e] w'].
   - destruct F as [F1 F2]. cbn [ret]. split; [|exact F2]. destruct (live s k) as [it|].
@@ -63,17 +67,17 @@ Proof.
   - destruct F as [F1 F2]. split; [|exact F2]. destruct (live s k) as [it|]; [|discriminate].
     exists it. split; [reflexivity|]. destruct (deser c it) as [v|e']; [discriminate|]. cbn [bind] in F1. inversion F1. reflexivity.
 Qed.
-Theorem gats_e2e sid s key expire default cas_default k z : check_key c (c_prefix c) key = Ok k -> swf s ->
+Theorem gats_e2e s key expire default cas_default k z : check_key c (c_prefix c) key = Ok k -> swf s ->
   int_value expire = Some z -> - 2 ^ 63 <= z < 2 ^ 63 ->
   let s' := fst (exec s (CGat true z [k])) in
-  hoare (St sid s []) (run_op sstate serve c (OpGats key expire default cas_default))
+  hoare (Start s) (run_op sstate serve c (OpGats key expire default cas_default))
         (fun v w => match live s k with
                     | None => v = DTuple [default; cas_default]
-                    | Some it => exists x, deser c it = Ok x /\ v = DTuple [x; DBytes (str_of_Z (i_cas it))] end /\ St sid s' [] w)
+                    | Some it => exists x, deser c it = Ok x /\ v = DTuple [x; DBytes (str_of_Z (i_cas it))] end /\ Done s' w)
         (fun e w => (exists it, live s k = Some it /\ deser c it = Raise e) /\ w_sock w = None).
 Proof.
   intros Hk Hs Hz Hr. cbn zeta. cbn [run_op]. intros w Hw.
-  pose proof (fetch_gat_e2e sid s true [key] [k] expire z (wire_one c key k Hk) ltac:(discriminate) Hs Hz Hr w Hw) as F. cbn zeta in F.
+  pose proof (fetch_gat_e2e s true [key] [k] expire z (wire_one c key k Hk) ltac:(discriminate) Hs Hz Hr w Hw) as F. cbn zeta in F.
   rewrite (read_one c true s key k Hk) in F. unfold mbind.
   destruct (fetch_cmd sstate serve c L_gats [key] true (c_prefix c) (Some expire) w) as [[r|e] w'].
   - destruct F as [F1 F2]. cbn [ret]. split; [|exact F2]. destruct (live s k) as [it|].
